@@ -71,6 +71,22 @@ def run(ctx):
                 t = t + '\n' + rng.choice(valid['property'])
             kind = 'valid'
         texts.append((entry, t, kind))
+    # annotation blocks: any sequence of 1..4 items over known / unknown keys with repetitions, well- and ill-formed values
+    for _ in range(80 if ctx.quick else 800):
+        items = []
+        for _ in range(rng.randrange(1, 5)):
+            k = rng.choice(['id', 'title', 'description', 'id', 'title', 'description', 'ID', 'name', 'idx'])
+            v = {'id': rng.choice(['p1', 'a_b', '"quoted"', '12', '']), 'title': rng.choice(['"t"', '"a: b # c"', 'bare', '""']),
+                 'description': rng.choice(['"d"', '"# id: x"', '7'])}.get(k, '"x"')
+            items.append(f'#{rng.choice(["", " "])}{k}{rng.choice(["", " "])}:{rng.choice(["", " "])}{v}')
+        body = rng.choice(valid['property'])
+        body = body[body.index('\n', body.rindex('#')) + 1:] if '#' in body else body
+        sep = rng.choice(['\n', ' ', '\n\n'])
+        t = sep.join(items) + sep + body
+        entry = rng.choice(['property', 'specification'])
+        if entry == 'specification' and rng.random() < 0.5:
+            t = rng.choice(valid['property']) + '\n' + t
+        texts.append((entry, t, 'annotations'))
     # deep nesting within the stated bound
     for d in (5, 10, 12):
         texts.append(('expression', '(' * d + 'x' + ')' * d + ' > 0', 'nested'))
